@@ -372,3 +372,21 @@ class Report:
               f"evaluations={self.evaluations} nontrivial={self.nontrivial} violations={len(new)} "
               f"known={sum(n for _, n in kf.values())} wall={ev['wall_s']}s")
         return rc
+
+
+def run_apalache_inductive(module_dir: Path, module: str, init: str, indinit: str, inv: str, cinit: str = "ConstInit", timeout: float = 600) -> dict:
+    """Discharge `inv` as an inductive invariant with Apalache: Init => Inv (length 0) and Inv /\ Next => Inv' (length 1)."""
+    out = {}
+    for name, i, length in (("base", init, 0), ("step", indinit, 1)):
+        d = scratch()
+        cmd = ["apalache-mc", "check", f"--cinit={cinit}", f"--init={i}", f"--inv={inv}", f"--length={length}", f"--out-dir={d}", f"{module}.tla"]
+        t0 = time.time()
+        try:
+            p = subprocess.run(cmd, cwd=module_dir, capture_output=True, text=True, timeout=timeout)
+        except subprocess.TimeoutExpired:
+            raise MachineryError(f"apalache {name} obligation timed out")
+        ok = p.returncode == 0 and "The outcome is: NoError" in p.stdout
+        out[name] = {"ok": ok, "wall_s": round(time.time() - t0, 1)}
+        if not ok:
+            raise MachineryError(f"apalache could not discharge the {name} obligation of {inv}:\n" + p.stdout[-600:])
+    return out
